@@ -37,7 +37,7 @@ def frozen_values(driver, l, st):
 
 
 def run(ctx):
-    proof_ok, proof = common.proof_status_all(ctx, "C05", ["gaps1", "C05_run"])
+    proof_ok, proof = common.proof_status_all(ctx, "C05", ["gaps1", "C05_run", "links"])
     s = ctx.seed
     nd = 3000 if ctx.quick else 250000
     nc = 1200 if ctx.quick else 100000
